@@ -1,8 +1,124 @@
 import PyresampleModel.Model.C13
+import PyresampleModel.Proofs.Num
 
 /-
-  C13 — property theorems (stub: none yet).
+  C13 — property theorems: every sufficient description of a grid recovers the same extent and shape.
 -/
 namespace PyresampleModel.C13
+
+/-- a well-formed grid: extent with positive spans, at least one row and column -/
+structure WFG (x0 y0 x1 y1 : Rat) (h w : Nat) : Prop where
+  hx : x0 < x1
+  hy : y0 < y1
+  hh : 1 ≤ h
+  hw : 1 ≤ w
+
+theorem absQ_nonneg (q : Rat) : 0 ≤ absQ q := by unfold absQ; split <;> linarith
+
+theorem close1_self (a : Rat) : close1 a a = true := by
+  simp only [close1, sub_self, decide_eq_true_eq]
+  have h0 : absQ 0 = 0 := by simp [absQ]
+  have := absQ_nonneg a
+  rw [h0]; positivity
+
+theorem roundDim_nat (n : Nat) : roundDim (n : Rat) = n := by
+  have h : roundHalfEven (n : Rat) = (n : Int) :=
+    roundHalfEven_eq (c := (n : Int)) (by push_cast; linarith) (by push_cast; linarith)
+  simp only [roundDim, h]
+  have h0 : absQ ((n : Rat) - ((n : Int) : Rat)) = 0 := by simp [absQ]
+  rw [h0]
+  have : ¬ ((0 : Rat) > 1 / 100000000) := by norm_num
+  rw [if_neg this]; exact h
+
+variable {x0 y0 x1 y1 : Rat} {h w : Nat}
+
+/-- the grid that every description below must recover -/
+def target (x0 y0 x1 y1 : Rat) (h w : Nat) : Found :=
+  { extent := some (x0, y0, x1, y1), shape := some ((h : Rat), (w : Rat)) }
+
+/-- **extent + shape** -/
+theorem desc1_extent_shape (x0 y0 x1 y1 : Rat) (h w : Nat) :
+    createArea { extent := some (x0, y0, x1, y1), shape := some ((h : Rat), (w : Rat)) } = some (target x0 y0 x1 y1 h w) := rfl
+
+/-- **centre + radius + shape** -/
+theorem desc2_center_radius_shape (x0 y0 x1 y1 : Rat) (h w : Nat) :
+    createArea { center := some ((x1 + x0) / 2, (y1 + y0) / 2), radius := some ((x1 - x0) / 2, (y1 - y0) / 2),
+                 shape := some ((h : Rat), (w : Rat)) } = some (target x0 y0 x1 y1 h w) := by
+  have e1 : (x1 + x0) / 2 - (x1 - x0) / 2 = x0 := by ring
+  have e2 : (y1 + y0) / 2 - (y1 - y0) / 2 = y0 := by ring
+  have e3 : (x1 + x0) / 2 + (x1 - x0) / 2 = x1 := by ring
+  have e4 : (y1 + y0) / 2 + (y1 - y0) / 2 = y1 := by ring
+  simp [createArea, extrapolate, validate4, target, e1, e2, e3, e4]
+
+/-- **centre + resolution + shape** -/
+theorem desc3_center_resolution_shape (hg : WFG x0 y0 x1 y1 h w) :
+    createArea { center := some ((x1 + x0) / 2, (y1 + y0) / 2), resolution := some ((x1 - x0) / w, (y1 - y0) / h),
+                 shape := some ((h : Rat), (w : Rat)) } = some (target x0 y0 x1 y1 h w) := by
+  have hw : (w : Rat) ≠ 0 := by have := hg.hw; positivity
+  have hh : (h : Rat) ≠ 0 := by have := hg.hh; positivity
+  have e1 : (x1 + x0) / 2 - (x1 - x0) / w * w / 2 = x0 := by field_simp; ring
+  have e2 : (y1 + y0) / 2 - (y1 - y0) / h * h / 2 = y0 := by field_simp; ring
+  have e3 : (x1 + x0) / 2 + (x1 - x0) / w * w / 2 = x1 := by field_simp; ring
+  have e4 : (y1 + y0) / 2 + (y1 - y0) / h * h / 2 = y1 := by field_simp; ring
+  simp [createArea, extrapolate, validate2, validate4, target, e1, e2, e3, e4]
+
+/-- **upper-left extent + resolution + shape** -/
+theorem desc4_ule_resolution_shape (hg : WFG x0 y0 x1 y1 h w) :
+    createArea { ule := some (x0, y1), resolution := some ((x1 - x0) / w, (y1 - y0) / h),
+                 shape := some ((h : Rat), (w : Rat)) } = some (target x0 y0 x1 y1 h w) := by
+  have hw : (w : Rat) ≠ 0 := by have := hg.hw; positivity
+  have hh : (h : Rat) ≠ 0 := by have := hg.hh; positivity
+  have e2 : y1 - 2 * ((y1 - y0) / h * h / 2) = y0 := by field_simp; ring
+  have e3 : x0 + 2 * ((x1 - x0) / w * w / 2) = x1 := by field_simp; ring
+  simp [createArea, extrapolate, validate2, validate4, target, e2, e3]
+
+/-- **centre + radius + resolution** (the shape is found by rounding 2·radius/resolution) -/
+theorem desc5_center_radius_resolution (hg : WFG x0 y0 x1 y1 h w) :
+    createArea { center := some ((x1 + x0) / 2, (y1 + y0) / 2), radius := some ((x1 - x0) / 2, (y1 - y0) / 2),
+                 resolution := some ((x1 - x0) / w, (y1 - y0) / h) } = some (target x0 y0 x1 y1 h w) := by
+  have hw : (w : Rat) ≠ 0 := by have := hg.hw; positivity
+  have hh : (h : Rat) ≠ 0 := by have := hg.hh; positivity
+  have hxs : x1 - x0 ≠ 0 := by have := hg.hx; linarith
+  have hys : y1 - y0 ≠ 0 := by have := hg.hy; linarith
+  have s1 : 2 * ((y1 - y0) / 2) / ((y1 - y0) / h) = (h : Rat) := by field_simp
+  have s2 : 2 * ((x1 - x0) / 2) / ((x1 - x0) / w) = (w : Rat) := by field_simp
+  have e1 : (x1 + x0) / 2 - (x1 - x0) / 2 = x0 := by ring
+  have e2 : (y1 + y0) / 2 - (y1 - y0) / 2 = y0 := by ring
+  have e3 : (x1 + x0) / 2 + (x1 - x0) / 2 = x1 := by ring
+  have e4 : (y1 + y0) / 2 + (y1 - y0) / 2 = y1 := by ring
+  simp [createArea, extrapolate, validate2, validate4, target, s1, s2, roundDim_nat, e1, e2, e3, e4]
+
+/-- **extent + resolution** -/
+theorem desc6_extent_resolution (hg : WFG x0 y0 x1 y1 h w) :
+    createArea { extent := some (x0, y0, x1, y1), resolution := some ((x1 - x0) / w, (y1 - y0) / h) } =
+      some (target x0 y0 x1 y1 h w) := by
+  have hw : (w : Rat) ≠ 0 := by have := hg.hw; positivity
+  have hh : (h : Rat) ≠ 0 := by have := hg.hh; positivity
+  have hxs : x1 - x0 ≠ 0 := by have := hg.hx; linarith
+  have hys : y1 - y0 ≠ 0 := by have := hg.hy; linarith
+  have s1 : 2 * ((y1 - y0) / 2) / ((y1 - y0) / h) = (h : Rat) := by field_simp
+  have s2 : 2 * ((x1 - x0) / 2) / ((x1 - x0) / w) = (w : Rat) := by field_simp
+  have e1 : (x1 + x0) / 2 - (x1 - x0) / 2 = x0 := by ring
+  have e2 : (y1 + y0) / 2 - (y1 - y0) / 2 = y0 := by ring
+  have e3 : (x1 + x0) / 2 + (x1 - x0) / 2 = x1 := by ring
+  have e4 : (y1 + y0) / 2 + (y1 - y0) / 2 = y1 := by ring
+  simp [createArea, extrapolate, validate2, validate4, close4, close1_self, target, s1, s2, roundDim_nat, e1, e2, e3, e4]
+
+/-- **contradictions raise**: an extent together with a centre that is not (close to) the
+extent's own centre is rejected -/
+theorem contradiction_raises (x0 y0 x1 y1 : Rat) (c : P2) (res : Option P2)
+    (hc : close2 c ((x1 + x0) / 2, (y1 + y0) / 2) = false) :
+    createArea { extent := some (x0, y0, x1, y1), center := some c, resolution := res } = none := by
+  simp [createArea, extrapolate, validate2, hc]
+
+/-- **missing information gives a dynamic area**: with only a resolution (or only a shape, or only
+an extent) no conflict is reported and extent or shape stays undetermined -/
+theorem missing_gives_dynamic (res : P2) (s : P2) :
+    createArea { resolution := some res } = some { extent := none, shape := none } ∧
+    createArea { shape := some s } = some { extent := none, shape := some s } ∧
+    createArea { resolution := some res, shape := some s } = some { extent := none, shape := some s } := by
+  refine ⟨?_, ?_, ?_⟩ <;> simp [createArea, extrapolate, validate2]
+
+example : WFG 0 0 4 3 3 4 := ⟨by norm_num, by norm_num, by norm_num, by norm_num⟩
 
 end PyresampleModel.C13
